@@ -278,7 +278,7 @@ def run(ck):
                "the model and the property is checked directly (credentials, session limit, an enabled admin remains, commands only on live sessions); "
                "whether a command ran is observed as a folder created on the server; non-trivial = has both a remote login and a command")
     coq_props(ck)
-    gen_tie.check(ck, ["session"])
+    gen_tie.check(ck, ["session", "sessiongate"])
     coq_in = []
     directed(ck, coq_in)
     request_battery(ck)
